@@ -265,6 +265,116 @@ Proof.
   unfold second in *. lia.
 Qed.
 
+Lemma chain_trans c a b d : chain c a b -> chain c b d -> chain c a d.
+Proof.
+  intros A B. induction B as [tok|b tok env s clk s' code tok' exp B IH P L]; [exact A|].
+  exact (chain_step c a tok env s clk s' code tok' exp (IH A) P L).
+Qed.
+
+(* ---------------- histories ---------------- *)
+
+Lemma hist_nth c reqs : forall done k r,
+  nth_error reqs k = Some r ->
+  nth_error (hist mac c done reqs) (length done + k) =
+  Some (hstep mac c (firstn (length done + k) (hist mac c done reqs)) r)
+  /\ firstn (length done) (hist mac c done reqs) = done.
+Proof.
+  induction reqs as [|r0 rest IH]; intros done k r H; [destruct k; discriminate|].
+  cbn [hist]. destruct k as [|k].
+  - injection H as ->.
+    destruct rest as [|r1 rest'].
+    + cbn [hist]. rewrite Nat.add_0_r. split.
+      * rewrite nth_error_app2 by lia. rewrite Nat.sub_diag. cbn.
+        rewrite firstn_app, Nat.sub_diag, firstn_all. cbn. now rewrite app_nil_r.
+      * rewrite firstn_app, Nat.sub_diag, firstn_all. cbn. now rewrite app_nil_r.
+    + destruct (IH (done ++ [hstep mac c done r]) 0%nat r1 eq_refl) as [_ F].
+      rewrite app_length in F. cbn [length] in F.
+      assert (F1 : firstn (length done) (hist mac c (done ++ [hstep mac c done r]) (r1 :: rest')) = done).
+      { replace (length done) with (Nat.min (length done) (length done + 1)) by lia.
+        rewrite <- firstn_firstn, F, firstn_app, Nat.sub_diag, firstn_all. cbn. now rewrite app_nil_r. }
+      assert (F2 : nth_error (hist mac c (done ++ [hstep mac c done r]) (r1 :: rest')) (length done)
+                   = Some (hstep mac c done r)).
+      { rewrite <- (firstn_skipn (length done + 1) (hist mac c (done ++ [hstep mac c done r]) (r1 :: rest'))), F.
+        rewrite nth_error_app1 by (rewrite app_length; cbn; lia).
+        rewrite nth_error_app2 by lia. now rewrite Nat.sub_diag. }
+      rewrite Nat.add_0_r. split; [|exact F1]. rewrite F1. exact F2.
+  - cbn [nth_error] in H.
+    destruct (IH (done ++ [hstep mac c done r0]) k r H) as [N F].
+    rewrite app_length in N, F. cbn [length] in N, F.
+    replace (length done + S k)%nat with (length done + 1 + k)%nat by lia. split; [exact N|].
+    replace (length done) with (Nat.min (length done) (length done + 1)) by lia.
+    rewrite <- firstn_firstn, F, firstn_app, Nat.sub_diag, firstn_all. cbn. now rewrite app_nil_r.
+Qed.
+
+Lemma history_nth c reqs k r :
+  nth_error reqs k = Some r ->
+  nth_error (history mac c reqs) k = Some (hstep mac c (firstn k (history mac c reqs)) r).
+Proof. intros H. exact (proj1 (hist_nth c reqs [] k r H)). Qed.
+
+(* [descends reqs i k]: login k presents the token handed back by login j < k, which presents the
+   token handed back by ... login i *)
+Inductive descends (reqs : list lreq) : nat -> nat -> Prop :=
+| desc_refl i : descends reqs i i
+| desc_step i j k r : descends reqs i j -> nth_error reqs k = Some r -> rq_src r = Earlier j ->
+    (j < k)%nat -> descends reqs i k.
+
+Lemma nth_firstn_lt {A} (l : list A) j k d : (j < k)%nat -> nth j (firstn k l) d = nth j l d.
+Proof.
+  revert j k. induction l as [|x l IH]; intros j k H; [now rewrite firstn_nil|].
+  destruct k; [lia|]. destruct j; [reflexivity|]. cbn. apply IH. lia.
+Qed.
+
+(* in every history whose logins are processed promptly: if login k descends from login i and both
+   handed back a token, the two tokens are related by [chain] *)
+Lemma history_chain c reqs i k ti tk :
+  (forall r, In r reqs -> prompt (rq_clk r)) ->
+  descends reqs i k ->
+  out_tok (nth i (history mac c reqs) no_out) = Some ti ->
+  out_tok (nth k (history mac c reqs) no_out) = Some tk ->
+  chain c ti tk.
+Proof.
+  intros P D. revert ti tk. induction D as [i|i j k r D IH N S L]; intros ti tk Hi Hk.
+  - rewrite Hi in Hk. injection Hk as <-. apply chain_refl.
+  - pose proof (history_nth c reqs k r N) as E.
+    rewrite (nth_error_nth _ _ no_out E) in Hk.
+    unfold hstep, presented in Hk. rewrite S, (nth_firstn_lt _ _ _ _ L) in Hk.
+    destruct (out_tok (nth j (history mac c reqs) no_out)) as [tj|] eqn:Hj.
+    + specialize (IH ti tj Hi eq_refl).
+      destruct (login mac c (rq_env r) (rq_sess r) (rq_clk r) (SecToken tj)) as [s' [code [[t e]|]]] eqn:Lg;
+        unfold out_tok in Hk; cbn in Hk; [|discriminate]. injection Hk as ->.
+      apply (chain_step c ti tj (rq_env r) (rq_sess r) (rq_clk r) s' code tk e IH); [|exact Lg].
+      apply P. eapply nth_error_In; exact N.
+    + exfalso. unfold out_tok in Hk.
+      assert (X : lo_token (snd (login mac c (rq_env r) (rq_sess r) (rq_clk r) (SecToken []))) = None).
+      { unfold login. destruct (s_uid (rq_sess r) =? 0)%N; cbn [negb]; [|reflexivity].
+        cbn [authenticate_secret]. unfold token_rec, authenticate. cbn. reflexivity. }
+      rewrite X in Hk. discriminate.
+Qed.
+
+(* (i)+(ii) over histories *)
+Lemma history_restricted c reqs i k ti tk :
+  (forall r, In r reqs -> prompt (rq_clk r)) ->
+  descends reqs i k ->
+  out_tok (nth i (history mac c reqs) no_out) = Some ti ->
+  out_tok (nth k (history mac c reqs) no_out) = Some tk ->
+  tok_restricted ti = true ->
+  tok_restricted tk = true /\ tok_expiry tk <= tok_expiry ti.
+Proof.
+  intros P D Hi Hk R. pose proof (history_chain c reqs i k ti tk P D Hi Hk) as C.
+  destruct (chain_restricted c ti tk C R) as (Rk & E & _). split; assumption.
+Qed.
+
+(* a login of a history that presents a restricted token handed back earlier leaves its session alone *)
+Lemma history_never_authenticates c reqs j k r tj :
+  nth_error reqs k = Some r -> rq_src r = Earlier j -> (j < k)%nat ->
+  out_tok (nth j (history mac c reqs) no_out) = Some tj -> tok_restricted tj = true ->
+  fst (nth k (history mac c reqs) no_out) = rq_sess r.
+Proof.
+  intros N S L Hj R. pose proof (history_nth c reqs k r N) as E.
+  rewrite (nth_error_nth _ _ no_out E). unfold hstep, presented.
+  rewrite S, (nth_firstn_lt _ _ _ _ L), Hj. apply restricted_never_authenticates. exact R.
+Qed.
+
 (* ---------------- a full login ---------------- *)
 
 (* record without the no-login bit, nothing left to validate: the session is authenticated as
